@@ -80,3 +80,36 @@ Proof.
   cbn [neutral]. rewrite forallb_forall in C2. apply C2. apply nth_In. now rewrite C3.
 Qed.
 End Oracles.
+
+(* ------------------------------------------------------------------ the executable instance (Nom/Exec.v) *)
+(* there the three hypotheses about the actions are facts about act_exec: the theorem holds of the grammar as it is run
+   against the real parser, with nothing assumed *)
+From SV Require Exec GenPrims.
+
+(* what a state action of the executable instance does to the height of the IN_DIRECTIVE stack *)
+Definition dir_step (a : N) (d : nat) : nat := match a with 1%N => S d | 2%N => pred d | _ => d end.
+
+Lemma act_exec_dir a x : Exec.t_dir (Exec.act_exec a x) = dir_step a (Exec.t_dir x).
+Proof.
+  unfold Exec.act_exec, dir_step.
+  destruct a as [|p]; [reflexivity|].
+  destruct p as [p|p|]; try reflexivity;
+  destruct p as [p|p|]; try reflexivity;
+  destruct p as [p|p|]; try reflexivity;
+  destruct p as [p|p|]; try reflexivity;
+  destruct p as [p|p|]; try reflexivity.
+Qed.
+
+Theorem C12_exec_directive_mode_never_leaks : forall inp sfuel fuel n p rf st,
+  n < List.length grammar ->
+  Exec.t_dir (ps_aux Exec.tls (snd (run Exec.tls (Exec.prim_exec GenPrims.span_defs GenPrims.prim_table inp sfuel) Exec.act_exec Exec.cond_exec Exec.in_dir
+                                       inp grammar fuel (FCall n) p rf st))) = Exec.t_dir (ps_aux Exec.tls st).
+Proof.
+  intros inp sfuel fuel n p rf st Hn.
+  apply (C12_directive_mode_never_leaks Exec.tls _ Exec.act_exec Exec.cond_exec Exec.in_dir inp nat Exec.t_dir); [| | |exact Hn].
+  - intros a x Ha. rewrite act_exec_dir. unfold dir_invisible in Ha. cbn in Ha.
+    repeat (destruct Ha as [<-|Ha]; [reflexivity|]). contradiction.
+  - intros a x y E. now rewrite !act_exec_dir, E.
+  - intros a b x Hab. unfold dir_inverse in Hab. cbn in Hab. destruct Hab as [[= <- <-]|[]].
+    rewrite !act_exec_dir. reflexivity.
+Qed.
